@@ -136,17 +136,26 @@ def self_test():
     os.makedirs(d)
     with open(os.path.join(d, "t.ms"), "w") as f:
         f.write('m = map[str, int]\nm["a"] = 1\nprint "canary line"\n')
-    plan = {"seed": "00112233445566778899aabbccddeeff",
-            "rules": [{"id": "c1", "call": "write", "pat": "<stdout>", "nth": "1", "act": "short:3"},
-                      {"id": "c2", "call": "read", "pat": "t.ms", "nth": "1", "act": "eintr"}]}
+    plan = {"seed": "00112233445566778899aabbccddeeff", "rules": []}
     p = run_cmd(d, ["run", "t.ms", "-q"], plan=plan, gc="1:1000000")
-    fired = {e["rule"] for e in p["events"] if e["rule"] != "-"}
-    ok = (p["rc"] == 0 and p["out"] == b"canary line\n" and {"c1", "c2", "seed"} <= fired
-          and p["stats"].get("forced_gc", 0) > 0)
+    calls = {(e["call"], e["path"]) for e in p["events"]}
+    seen = {("open", "t.ms"), ("read", "t.ms")} <= calls and any(e["rule"] == "seed" for e in p["events"])
+    # interposition is judged on calls every build makes (open/read of the source, the hash seed).  Whether the program then
+    # runs correctly is the business of the checks, not of the self-test: a broken tree must give VIOLATION, not exit 2.
+    ok = seen
+    if p["rc"] == 0:
+        ok = ok and p["out"] == b"canary line\n" and ("write", "<stdout>") in calls and p["stats"].get("forced_gc", 0) > 0
+    # the rule engine itself: a short-write rule on stdout must fire when the program gets that far
+    plan2 = {"seed": "00112233445566778899aabbccddeeff",
+             "rules": [{"id": "c1", "call": "write", "pat": "<stdout>", "nth": "1", "act": "short:3"}]}
+    p2 = run_cmd(d, ["run", "t.ms", "-q"], plan=plan2)
+    if p["rc"] == 0 and p2["rc"] == 0:
+        ok = ok and any(e["rule"] == "c1" for e in p2["events"])
+    fired = sorted(calls)
     shutil.rmtree(d, ignore_errors=True)
     if not ok:
-        raise HarnessError("shim/hook self-test failed: rc=%r out=%r fired=%r stats=%r err=%r"
-                           % (p["rc"], p["out"], fired, p["stats"], p["err"][-500:]))
+        raise HarnessError("shim/hook self-test failed: rc=%r out=%r calls=%r stats=%r err=%r"
+                           % (p["rc"], p["out"], fired[:12], p["stats"], p["err"][-500:]))
 
 
 # --------------------------------------------------------------- running cmds
